@@ -11,7 +11,7 @@ SPEC = {
  "C01": ("Shape BuildIdx Geometry GeomProof", ["geometry_starts","geometry_lengths","geometry_size","build_rows_observers","build_flat_accept","build_flat_reject","to_numpy_spec","from_numpy_roundtrip","legacy_offsets_shape","unravel_all","ravel_all","build_indices_correct"]),
  "C03": ("SetItem XorProof", ["setitem_correct","getitem_factor","resolve_cells","raw_broadcast_correct"]),
  "C04": ("UfuncProof XorProof", ["ufunc2_correct","raw_broadcast_correct"]),
- "C05": ("ReduceProof ArgmaxProof", ["reduce_correct","first_occurrences","argmax_correct","argmin_correct"]),
+ "C05": ("ReduceProof ArgmaxProof ColMean RaMean", ["reduce_correct","ra_row_mean_correct","first_occurrences","argmax_correct","argmin_correct"]),
  "C06": ("Chain MaterialiseWF NoWriteThrough", ["derived_denote","chain_correct","indistinguishable_read","materialise_wf","rows_of_denote","assign_leaves_older_arrays_unchanged"]),
  "C07": ("ScanProof AccumProof DiffProof SortProof BucketSort LexSort UniqueProof UniqueLens", ["cumsum_correct","accumulate_correct","diff_correct","sort_buckets","two_pass_rows","index_array_char","sort_correct","unique_correct"]),
  "C08": ("StructProof SubsetProof RSliceProof RSliceInputs NonzeroProof PaddedProof Struct2 Struct2Proof", ["concat0_correct","concat1_correct","like_correct","where_correct","where_scalar_correct","subset_correct","ragged_slice_correct","ragged_slice_1d_correct","ragged_slice_2d_is_ragged","ragged_slice_2d_correct","nonzero_correct","padded_correct"]),
